@@ -275,9 +275,10 @@ def build_world() -> World:
     ua = Contract("model:user_action", [], props=[])
     ua.returns(OPAQUE)
     ua.mod("self.context", "self.status", "self._after_events", "self._after_threads", "self._pending_send_cancels",
-           "self._scheduled_sends", "self._actors", "self._event_queue", "self.g_accepted")
-    _keep = ["status_reach(old(self.status), self.status)",
-             "implies(old(self._is_processing), appended_only(old(self._event_queue), old(self.g_accepted), self._event_queue, self.g_accepted))"]
+           "self._scheduled_sends", "self._actors", "self._event_queue", "self.g_accepted", "Flag.is_set")
+    _keep = ["forall[Flag](lambda f: implies(old(f.is_set), f.is_set))","status_reach(old(self.status), self.status)",
+             "implies(old(self._is_processing), appended_only(old(self._event_queue), old(self.g_accepted), self._event_queue, self.g_accepted))",
+             "forall[str](lambda k: implies(k in self._after_events, k in old(self._after_events) and self._after_events[k] == old(self._after_events)[k]))"]
     for t in _keep:
         ua.ens(t)
     ua.may_raise("UserExc", ensures=_keep)
@@ -307,5 +308,6 @@ def build_world() -> World:
             return [(st, t)]
         return None
     w.ctor_hook = ctor_hook
-    w.external_mods = lambda name: []
+    # heap locations an external method call may write (used by the loop rule's havoc analysis)
+    w.external_mods = lambda name: [("Flag", "is_set")] if name == ".set" else []
     return w
